@@ -237,7 +237,7 @@ func (g *commonGen) template(w *World, name string, b int) []Step {
 		n := 2 + g.r.Intn(5)
 		oa := g.otherAcct(w, a)
 		for i := 0; i < n; i++ {
-			muts := []string{fmt.Sprintf("flipbit:%d", g.r.Intn(512)), fmt.Sprintf("trunc:%d", g.r.Intn(64)), fmt.Sprintf("extend:%d", g.r.Intn(6)),
+			muts := []string{fmt.Sprintf("flipbit:%d", g.r.Intn(512)), fmt.Sprintf("trunc:%d", g.r.Intn(64)), fmt.Sprintf("trunc:%d", 60+g.r.Intn(4)), fmt.Sprintf("extend:%d", g.r.Intn(6)),
 				fmt.Sprintf("splice:%d", oa), fmt.Sprintf("splice2:%d", oa), "suffix:.", "suffix:,", "prefix: ", "upper", "stdalpha"}
 			st := Step{Kind: use, B: b, A: a, Sec: &SecretRef{Kind: kind, A: a, Idx: -1, Mut: muts[g.r.Intn(len(muts))]}}
 			if g.r.Chance(1, 5) {
